@@ -226,7 +226,9 @@ def parse(xml: str, **opts):
 # ---------------------------------------------------------------- generators
 NAMES = ["a", "b", "c", "div", "p", "hi", "lb", "note"]
 NSS = ["", "", "", "urn:x", "urn:y", "http://www.tei-c.org/ns/1.0"]
-WORDS = ["x", "yz", "lorem", "ipsum", "é", "漢字", "&", "<", ">", '"', "'", "]]>", "a-b", "1"]
+WORDS = ["x", "yz", "lorem", "ipsum", "é", "漢字", "&", "<", ">", '"', "'", "]]>", "a-b", "1", '"q"', "a&b"]
+# attribute values share strings with the text pool (the same string in both contexts must be escaped per context)
+ATTR_VALUES = ["", "1", "v w", "a&b", '"q"', "<", "é", '"', "'", "]]>", ">", "x", "&"]
 WS = [" ", "  ", "\n", "\t", " \n ", "\n\t\t", "\r"]
 
 
@@ -256,7 +258,7 @@ def gen_tree(rng, max_depth=4, max_kids=5, nss=NSS, p_text=0.45, p_comment=0.08,
             ans = rng.choice(["", "", "", "urn:x", "urn:z"])
             an = rng.choice(["id", "n", "type", "k"])
             if not any(a[0] == ans and a[1] == an for a in at):
-                at.append([ans, an, rng.choice(["", "1", "v w", "a&b", '"q"', "<", "é"])])
+                at.append([ans, an, rng.choice(ATTR_VALUES)])
     if space_attr and rng.random() < space_attr:
         at.append([XML_NS, "space", rng.choice(["preserve", "preserve", "default", "bogus"])])
     kids = []
